@@ -88,7 +88,10 @@ fn snap(w: &World, id: PeerIndex, times: &ReqTimes) -> Snap {
         s.other_requests = p.get_blocks_proof_request().is_some() || p.get_blocks_request().is_some() || p.get_txs_proof_request().is_some();
         for (kind, exists) in [("GetBlocksProof", p.get_blocks_proof_request().is_some()), ("GetBlocks", p.get_blocks_request().is_some()), ("GetTransactionsProof", p.get_txs_proof_request().is_some())] {
             if exists {
-                s.others.push((kind, times.0.get(&(id, kind)).cloned()));
+                // the send time of a request is read off the outbound message; once sends to this session fail (fault injection: the
+                // session is closing) a newer request may exist whose message never reached the boundary - its time is unknown
+                let closing = c.log.0.lock().unwrap().failing.contains(&id);
+                s.others.push((kind, if closing { None } else { times.0.get(&(id, kind)).cloned() }));
             }
         }
     }
@@ -321,7 +324,18 @@ fn scenario(seed: u64, k: u64, out: &Out) {
         } else {
             rng.below(12)
         };
+        // fault injection at the network boundary (1 in 25 events): a peer's session starts closing - sends to it fail and are lost, it
+        // sends nothing more; the disconnected callback comes with a later `disconnected` event (or the timeout rule removes the peer)
+        let ev = if rng.chance(1, 25) { 14 } else { ev };
         match ev {
+            14 => {
+                let cands: Vec<usize> = (0..w.peers.len()).filter(|i| w.peers[*i].connected && !w.peers[*i].closing).collect();
+                if !cands.is_empty() {
+                    let pi = *rng.pick(&cands);
+                    w.start_closing(pi);
+                    out.cell(&format!("session-closing|{}", mon.before.get(&pi).map(|s| s.name.clone()).unwrap_or_default()));
+                }
+            }
             0 => {
                 let cands: Vec<usize> = (0..w.peers.len()).filter(|i| !w.peers[*i].connected).collect();
                 if let Some(pi) = cands.first().cloned() {
